@@ -189,73 +189,41 @@ type divergence struct {
 	Other   string `json:"other"`
 }
 
-// preAnte: the transaction was refused before the ante handler installed its gas meter (it could not be
-// decoded, or a message failed ValidateBasic): no gas wanted, no data, no events.
-func preAnte(t txResult) bool {
-	return t.Direct == "" && t.Code != 0 && t.GasWanted == 0 && t.NEvents == 0
-}
-
-// strictGas (`-arg strictgas=1`) switches the tolerance described at compareRuns off.
-var strictGas bool
-
 // compareRuns compares the block results of the leading replica with those of another one and returns
-// the first divergence.
-//
-// CANDIDATE FINDING, tolerated unless strictGas (reported, tagged `candidate:...`, never silent): for a
-// transaction refused before the ante handler baseapp.runTx reports as GasUsed -- and charges to the block
-// gas meter, which x/feemarket's EndBlock writes to the store -- the running total of the deliver context's
-// own gas meter, i.e. what the BeginBlockers consumed.  x/capability's BeginBlocker re-initialises its
-// in-memory store once per process on that meter (InitMemStore replaces only the BLOCK gas meter), so in the
-// first block after a restart the total is larger (27843 gas here) than on a node that kept running.
-// oneRestarted(i) says that exactly one of the two replicas was restarted directly before block index i;
-// in such a block the GasUsed of pre-ante failures, the EndBlock response and the application hash of that
-// block are not compared; everything else, and every other block, is.
-func compareRuns(name string, lead, other []blockResult, oneRestarted func(i int) bool) (*divergence, []string) {
-	var cands []string
+// the first divergence (height = block index of the replay + 1, transaction index).
+func compareRuns(name string, lead, other []blockResult) *divergence {
 	for i := range lead {
 		if i >= len(other) {
-			return &divergence{name, lead[i].Height, "replica stopped early", "block executed", "missing"}, cands
+			return &divergence{name, lead[i].Height, "replica stopped early", "block executed", "missing"}
 		}
 		a, b := lead[i], other[i]
 		switch {
 		case a.Panic != b.Panic:
-			return &divergence{name, a.Height, "panic", a.Panic, b.Panic}, cands
+			return &divergence{name, a.Height, "panic", a.Panic, b.Panic}
 		case a.BeginDig != b.BeginDig:
-			return &divergence{name, a.Height, "BeginBlock response", a.BeginDig, b.BeginDig}, cands
+			return &divergence{name, a.Height, "BeginBlock response", a.BeginDig, b.BeginDig}
 		}
-		tolerant := !strictGas && oneRestarted != nil && oneRestarted(i)
-		tolerated := false
 		for j := range a.Txs {
 			if j >= len(b.Txs) {
-				return &divergence{name, a.Height, fmt.Sprintf("tx %d missing", j), a.Txs[j].Kind, ""}, cands
+				return &divergence{name, a.Height, fmt.Sprintf("tx %d missing", j), a.Txs[j].Kind, ""}
 			}
 			x, y := a.Txs[j], b.Txs[j]
 			if x.Digest != y.Digest || x.Direct != y.Direct {
-				if tolerant && preAnte(x) && preAnte(y) && x.Code == y.Code && x.Codespace == y.Codespace && x.GasUsed != y.GasUsed {
-					tolerated = true
-					cands = append(cands, fmt.Sprintf("height %d tx %d (%s, code %d, refused before the ante handler) in the first block after a restart of one replica: gas used %d on the leader, %d on %s",
-						a.Height, j, x.Kind, x.Code, x.GasUsed, y.GasUsed, name))
-					continue
-				}
 				return &divergence{name, a.Height, fmt.Sprintf("ResponseDeliverTx of tx %d (%s)", j, x.Kind),
 					fmt.Sprintf("code=%d gas=%d/%d events=%d digest=%s %s", x.Code, x.GasWanted, x.GasUsed, x.NEvents, x.Digest, x.Direct),
-					fmt.Sprintf("code=%d gas=%d/%d events=%d digest=%s %s", y.Code, y.GasWanted, y.GasUsed, y.NEvents, y.Digest, y.Direct)}, cands
+					fmt.Sprintf("code=%d gas=%d/%d events=%d digest=%s %s", y.Code, y.GasWanted, y.GasUsed, y.NEvents, y.Digest, y.Direct)}
 			}
 		}
 		switch {
 		case strings.Join(a.ValUpdates, ",") != strings.Join(b.ValUpdates, ","):
-			return &divergence{name, a.Height, "validator updates", strings.Join(a.ValUpdates, ","), strings.Join(b.ValUpdates, ",")}, cands
-		case tolerated:
-			if a.AppHash != b.AppHash {
-				cands = append(cands, fmt.Sprintf("height %d: application hash %s on the leader, %s on %s (x/feemarket stored a different block gas)", a.Height, a.AppHash, b.AppHash, name))
-			}
+			return &divergence{name, a.Height, "validator updates", strings.Join(a.ValUpdates, ","), strings.Join(b.ValUpdates, ",")}
 		case a.EndDig != b.EndDig:
-			return &divergence{name, a.Height, "EndBlock response", a.EndDig, b.EndDig}, cands
+			return &divergence{name, a.Height, "EndBlock response", a.EndDig, b.EndDig}
 		case a.AppHash != b.AppHash:
-			return &divergence{name, a.Height, "application hash", a.AppHash, b.AppHash}, cands
+			return &divergence{name, a.Height, "application hash", a.AppHash, b.AppHash}
 		}
 	}
-	return nil, cands
+	return nil
 }
 
 type repObs struct {
@@ -269,7 +237,6 @@ type repObs struct {
 	PerturbErrs map[string]string `json:"perturbation_problems,omitempty"` // a perturbation the harness could not perform
 	Probes      []probeObs        `json:"probe_calls,omitempty"`           // what the probe contract saw in delivered transactions (leading replica)
 	BHChecked   int               `json:"blockhash_answers_checked_by_model"`
-	Candidates  []string          `json:"candidate_finding_gas_of_pre_ante_failure_after_restart,omitempty"`
 }
 
 type probeObs struct {
@@ -408,28 +375,12 @@ func repRunCase(id string, in bhInput, gen *bhGenerator, pg *procGen, nrep int, 
 	if lead.Dead != "" && !lead.Stop && len(leadCmp) > len(raws) {
 		leadCmp = leadCmp[:len(raws)] // the panicking block was not recorded as raw input
 	}
-	restartedBefore := func(rep, bi int) bool {
-		if bi >= len(blocks) {
-			return false
-		}
-		for _, p := range blocks[bi].Pre {
-			if p.Rep == rep && p.K == "restart" {
-				return true
-			}
-		}
-		return false
-	}
-	oneRestarted := func(rep int) func(int) bool {
-		return func(bi int) bool { return restartedBefore(0, bi) != restartedBefore(rep, bi) }
-	}
 	for i := 0; i < nrep; i++ {
 		obs.Replicas = append(obs.Replicas, fmt.Sprintf("in-process %d: %s", i, optsName(replicaOpts[i%len(replicaOpts)])))
 		if i == 0 {
 			continue
 		}
-		d, cands := compareRuns(fmt.Sprintf("in-process %d", i), leadCmp, results[i], oneRestarted(i))
-		obs.Candidates = append(obs.Candidates, cands...)
-		if d != nil {
+		if d := compareRuns(fmt.Sprintf("in-process %d", i), leadCmp, results[i]); d != nil {
 			obs.Divergences = append(obs.Divergences, *d)
 		}
 	}
@@ -437,12 +388,8 @@ func repRunCase(id string, in bhInput, gen *bhGenerator, pg *procGen, nrep int, 
 		obs.Replicas = append(obs.Replicas, fmt.Sprintf("separate process (replica %d): %s", nrep, optsName(replicaOpts[1])))
 		if childErr != nil {
 			obs.ChildErr = childErr.Error()
-		} else {
-			d, cands := compareRuns("separate process", leadCmp, childRes, oneRestarted(nrep))
-			obs.Candidates = append(obs.Candidates, cands...)
-			if d != nil {
-				obs.Divergences = append(obs.Divergences, *d)
-			}
+		} else if d := compareRuns("separate process", leadCmp, childRes); d != nil {
+			obs.Divergences = append(obs.Divergences, *d)
 		}
 	}
 	for _, b := range leadCmp {
@@ -528,9 +475,6 @@ func repRunCase(id string, in bhInput, gen *bhGenerator, pg *procGen, nrep int, 
 	if pg != nil && pg.shape != "" {
 		c.Tags = append(c.Tags, "shape:"+pg.shape)
 	}
-	if len(obs.Candidates) > 0 {
-		c.Tags = append(c.Tags, "candidate:gas-of-pre-ante-failure-after-restart")
-	}
 	nz, z := 0, 0
 	for _, o := range bh {
 		if o.NonZero {
@@ -571,7 +515,6 @@ func replicasDriver(cfg Config, out *Out) error {
 		fmt.Sscan(v, &nrep)
 	}
 	selfTest = cfg.Args["selftest"] == "1"
-	strictGas = cfg.Args["strictgas"] == "1"
 	if cfg.Replay != "" {
 		i := 0
 		r := NewRng(1)
